@@ -215,3 +215,64 @@ func Hash(parts ...any) string {
 	}
 	return hex.EncodeToString(h.Sum(nil)[:12])
 }
+
+// Watchdog is the stall oracle for code under test that may spin or block for
+// ever inside one synchronous handler call (which no virtual clock can see past):
+// the harness marks the start of every case with Case; if a single case does not
+// end within limit of REAL time - orders of magnitude above the milliseconds a
+// case needs, also on a loaded machine - the shard reports a stall violation for
+// that case class, writes its report and exits (the spinning goroutine cannot be
+// stopped from outside). It must be started outside any synctest bubble.
+type Watchdog struct {
+	mu    sync.Mutex
+	last  time.Time
+	class string
+	desc  string
+	off   bool
+}
+
+// StartWatchdog starts the stall oracle; limit 0 means VERIF_STALL_S or 300 s.
+func (r *Report) StartWatchdog(e Env, limit time.Duration) *Watchdog {
+	if limit == 0 {
+		limit = 300 * time.Second
+		if v := os.Getenv("VERIF_STALL_S"); v != "" {
+			if s, err := strconv.ParseFloat(v, 64); err == nil && s > 0 {
+				limit = time.Duration(s * float64(time.Second))
+			}
+		}
+	}
+	w := &Watchdog{last: time.Now()}
+	go func() {
+		for {
+			time.Sleep(limit / 20)
+			w.mu.Lock()
+			idle, class, desc, off := time.Since(w.last), w.class, w.desc, w.off
+			w.mu.Unlock()
+			if off {
+				return
+			}
+			if idle > limit && class != "" {
+				r.Violate("stall/"+class, fmt.Sprintf("the handler call of this case did not return within %v of real time (a worker spinning or blocked for ever): %s", limit, desc), desc)
+				r.Outcome("stall!")
+				r.Exhaustive = false
+				_ = r.Finish(e)
+				os.Exit(0)
+			}
+		}
+	}()
+	return w
+}
+
+// Case marks the start of a case (class = stable violation key part, desc = replay description).
+func (w *Watchdog) Case(class, desc string) {
+	w.mu.Lock()
+	w.last, w.class, w.desc = time.Now(), class, desc
+	w.mu.Unlock()
+}
+
+// Stop ends the oracle.
+func (w *Watchdog) Stop() {
+	w.mu.Lock()
+	w.off = true
+	w.mu.Unlock()
+}
